@@ -47,6 +47,10 @@ CHECKS = {
    "rapid-instantiated probes of every panicking operation of the property with operand values around the boundaries (recovered value classified as runtime.Error / keyword class, with pre/post and operand-order logging) plus rapid-generated call trees with defers, recover at different depths, re-panics, panicking deferred functions, Goexit, goroutines and wrapper frames, each run as its own process so that the way the program ends is observed; compared with the native run",
    "trusts the native Go toolchain as reference; run-time error messages are compared by class keyword, not verbatim; evaluation-order probes only where the spec fixes the order",
    "property-based differential testing of generated probe programs and call trees (rapid) with native Go as oracle"),
+ "C09": ("exploration",
+   "rapid-generated families of named types (embedding graphs with value/pointer embedding and shadowing, value/pointer receivers, exported/unexported methods) and interfaces; every (dynamic value, interface) and (dynamic value, concrete type) pair is probed (assertions, calls with receiver logging and dumps afterwards, type-switch position, interface equality, map keys) plus static selectors, method values and method expressions for every method in the go/types method sets, and fixed probes for type identity across functions and packages; compared with the native run",
+   "trusts the native Go toolchain as reference; go/types is used only to decide which static selectors are valid Go",
+   "property-based differential testing of generated type families (rapid) with native Go as oracle"),
 }
 PENDING_REASON = "check not built yet in this session (work in progress; see DESIGN.md §8 for the order)"
 props=[json.loads(l)['id'] for l in open('/verif/properties.jsonl')]
